@@ -414,4 +414,14 @@ def R6_account_wiring(run):
     run.floor("R6", "callers", n, 6)
 
 
-RULES = [R6_account_wiring, R1_constants, R2_shift_bitmap_pairing, R3_byte_offset, R4_size_and_rent, R5_shared_checks]
+def R7_cross_checks(run):
+    run.title("R7", "dynamic and fixed arrays answer searches alike (C10.R3 instances) and each array's own variable-size flag decides its resize (C12.R5 pairs calculate_modify_liquidity, calculate_modify_tick_array, update_tick_array_accounts)")
+    from rules.common import RuleProxy
+    from rules import C10, C12
+    C10.R3_search_siblings(RuleProxy(run, 'R7'))
+    for pr in C12.PAIRS:
+        if pr['a'].rsplit('::', 1)[-1] in ('calculate_modify_liquidity', 'calculate_modify_tick_array', 'update_tick_array_accounts', '_calculate_modify_liquidity'):
+            C12.compare_pair(RuleProxy(run, 'R7'), 'R7', pr['a'], pr['b'], keys=pr.get('keys', C12.ALL), subs_b=pr.get('subs_b', ()), exempt=pr.get('exempt', {}), norm_a=pr.get('na'), norm_b=pr.get('nb'))
+
+
+RULES = [R6_account_wiring, R1_constants, R2_shift_bitmap_pairing, R3_byte_offset, R4_size_and_rent, R5_shared_checks, R7_cross_checks]
